@@ -7,7 +7,7 @@
    All theorems are for ALL n >= 0 and ALL k (not only k <= 4). *)
 From Coq Require Import ZArith List Sorting.Sorted Sorting.Permutation.
 From Batchie Require Import Lib.Sexp Model.Unrank Model.Binom
-  Proofs.C15Binom Proofs.C15Unrank Proofs.C15Enum Proofs.C15Src Generated.SrcArith
+  Proofs.C15Binom Proofs.C15Unrank Proofs.C15Enum Proofs.C15Src Generated.SrcArithC15
   Generated.SrcUnrank Proofs.C15Source.
 Import ListNotations.
 Open Scope Z_scope.
